@@ -31,6 +31,23 @@ var engineAssumptions = []string{
 
 var checks = []Check{
 	{
+		ID: "C04", Title: "slot migration and failover are invisible to clients", Level: "model_checking",
+		LevelText: "every history up to depth 4/5 (plus full migration scripts) over set-migrating / migrate key / finalise / failover (old master up or down) / refresh round interleaved with GET SET INCR DEL MGET on the moving and a stable slot group, on the real proxy stack against the mini cluster (ASK for absent keys of a migrating slot, ASKING consumed by the next command, MOVED from non-owners and replicas); plus all schedules within bounds of an ASK-redirected INCR racing with other traffic on the target node's connection",
+		Technique: "exhaustive enumeration of migration/failover histories + preemption/delay-bounded schedule exploration on the real proxy stack",
+		Assumptions: append([]string{"mini Redis Cluster redirection rules written from redis-server 5.0 getNodeByQuery; ownership changes are atomic cluster-wide (no gossip lag); replicas share their master's data", "errors are tolerated after a failover whose old master is down until the next periodic refresh round completed (the proxy cannot know earlier; deliberately weaker than the statement)"}, engineAssumptions...),
+		Jobs: []Job{
+			{Pkg: "proc/redis", Scenarios: []string{"C04/histories"}, Shards: 16, QuickS: 90, ThoroughS: 900},
+			{Pkg: "proc/redis", Scenarios: []string{"C04/asking"}, Shards: 16, QuickS: 90, ThoroughS: 900},
+		},
+	},
+	{
+		ID: "C07", Title: "the proxy heals after connection loss and topology change", Level: "model_checking",
+		LevelText: "every history up to depth 5/6 (plus selected deeper convergence histories) over connection resets, node down/up, slot-group moves (including the last group of a master) and refresh rounds on the real proxy stack; requests issued at quiescence and compared with a single-server reference; redirections must stop within two refresh rounds after the first redirection",
+		Technique: "exhaustive enumeration of fault/topology histories on the real proxy stack under a controlled scheduler with virtual time",
+		Assumptions: append([]string{"mini Redis Cluster (ownership changes are atomic cluster-wide; a restarted node keeps its data)", "default schedule per operation; the random seed-host choice rotates fairly"}, engineAssumptions...),
+		Jobs: []Job{{Pkg: "proc/redis", Scenarios: []string{"C07/histories"}, Shards: 16, QuickS: 90, ThoroughS: 900}},
+	},
+	{
 		ID: "C01", Title: "replies come back in request order, exactly one per request", Level: "model_checking",
 		LevelText: "stateless exploration on the real proxy stack: every pipeline of length <= 2/3 over a 10-request alphabet x every cut of its bytes into two writes (default schedule); every pipeline of length <= 2 (+ selected of length 3) under all schedules within preemption/delay/select bounds; two concurrent connections; a narrow driver of one backend client with three senders deciding per-backend FIFO pairing; a 40-request pipeline exceeding the 32-entry session queue; oracle: the received bytes parse with an independent codec into exactly one reply per request, reply k being the single-server answer to request k",
 		Technique: "preemption/delay-bounded stateless schedule exploration + exhaustive input/fragmentation enumeration on the real proxy stack",
